@@ -69,7 +69,15 @@ impl<T> Receiver<T> {
     pub fn try_recv(&mut self) -> Result<Option<T>, ChannelClosed> {
         match self.rx.pop() {
             Ok(val) => Ok(Some(val)),
-            Err(_) if self.rx.is_abandoned() => Err(ChannelClosed),
+            Err(_) if self.rx.is_abandoned() => {
+                // The producer may have pushed its last items after the failed `pop()` above
+                // and before it was dropped, so the queue must be checked once more.
+                std::sync::atomic::fence(std::sync::atomic::Ordering::Acquire);
+                match self.rx.pop() {
+                    Ok(val) => Ok(Some(val)),
+                    Err(_) => Err(ChannelClosed),
+                }
+            }
             Err(_) => Ok(None),
         }
     }
